@@ -91,7 +91,8 @@ def aff_pixarea(A6):
 
 
 def aff_pixlen(A6):
-    return math.sqrt(aff_pixarea(A6))
+    a, b, _, d, e, _ = A6
+    return min(math.hypot(a, d), math.hypot(b, e))
 
 
 def rect_pts(x0, y0, x1, y1):
@@ -157,6 +158,10 @@ LAYOUTS = {
     "8x8/3x4": ((8, 8), (3, 4)),
     "7x10/var": ((7, 10), ((4, 1, 2), (3, 3, 4))),
     "8x8/1tile": ((8, 8), (8, 8)),
+    # portrait (ny > nx); interior chunk smaller than the first and last chunk the largest; zero-length chunks
+    "10x7/4x3": ((10, 7), (4, 3)),
+    "10x7/var": ((10, 7), ((3, 2, 5), (3, 4))),
+    "8x10/zero": ((8, 10), ((4, 0, 4), (0, 2, 8))),
 }
 
 
@@ -166,7 +171,7 @@ def layout_offsets(layout):
 
 
 def layout_kind(layout):
-    return "variable" if layout.endswith("var") else "regular"
+    return "variable" if isinstance(LAYOUTS[layout][1][0], tuple) else "regular"
 
 
 def tile_rects(layout):
@@ -196,11 +201,16 @@ BASES = {
     "rot30": (32633, _rot30(600000.0, 6000000.0, 10.0, -10.0), "rotated"),
     "geo": (4326, (0.125, 0.0, 140.0, 0.0, -0.125, -30.0), "north-up"),
     "merc": (3857, (32.0, 0.0, 1600000.0, 0.0, -32.0, 7200000.0), "north-up"),
+    # non-square pixels; origin not a whole number of pixels from 0; tiny pixels
+    "nonsq": (32633, (10.0, 0.0, 600000.0, 0.0, -25.0, 6000000.0), "north-up"),
+    "offgrid": (32633, (10.0, 0.0, 600003.7, 0.0, -10.0, 6000001.3), "north-up"),
+    "geo-tiny": (4326, (4.5e-6, 0.0, 140.0, 0.0, -4.5e-6, -30.0), "north-up"),
     # CRS-less rasters
     "nocrs-ident": (None, (1.0, 0.0, 0.0, 0.0, 1.0, 0.0), "crs-less-identity"),
     "nocrs-world": (None, (10.0, 0.0, 1000.0, 0.0, -10.0, 2000.0), "crs-less-world"),
 }
-OTHER_CRS = {"utm": 4326, "flipx": 4326, "yup": 4326, "rot30": 4326, "geo": 3577, "merc": 4326}
+OTHER_CRS = {"utm": 4326, "flipx": 4326, "yup": 4326, "rot30": 4326, "geo": 3577, "merc": 4326,
+             "nonsq": 4326, "offgrid": 4326, "geo-tiny": 3577}
 
 
 def mk_gbt(epsg, A6, layout):
@@ -246,6 +256,8 @@ def cfg_F2(c, layout, qepsg):
 
 def classify(F, Q, tol):
     """'in' clearly intersecting, 'out' clearly disjoint, 'band' within tol of merely touching."""
+    if F.area <= 0:  # zero-length chunk: a degenerate footprint can at most be touched
+        return "out" if F.distance(Q) > tol else "band"
     fb, qb = F.bounds, Q.bounds
     if fb[0] - qb[2] > tol or qb[0] - fb[2] > tol or fb[1] - qb[3] > tol or qb[1] - fb[3] > tol:
         return "out"
@@ -342,10 +354,17 @@ def q_layouts(tier):
     return ("8x8/4x4", "7x10/3x4", "8x10/var", "7x10/4x4", "8x8/3x4", "7x10/var", "8x8/1tile")
 
 
+Q_EXTRA = ((("nonsq", "same"), ("nonsq", "other"), ("offgrid", "same"), ("utm", "same")), ("10x7/var", "8x10/zero"))
+
+
 def gen_query():
     tier = _TIER[0]
-    for base, qc in q_base_crs(tier):
-        for layout in q_layouts(tier):
+    combos = [(b, q, l) for b, q in q_base_crs(tier) for l in q_layouts(tier)]
+    combos += [(b, q, l) for b, q in Q_EXTRA[0] for l in Q_EXTRA[1] + (("10x7/4x3",) if tier != "quick" else ())]
+    if tier != "quick":
+        combos += [("geo-tiny", q, l) for q in ("same", "other") for l in ("8x8/4x4", "10x7/var")]
+    for base, qc, layout in combos:
+        for _ in (0,):
             yo, xo = layout_offsets(layout)
             xi = intervals(axis_alphabet(xo, tier))
             yi = intervals(axis_alphabet(yo, tier))
@@ -389,7 +408,8 @@ def run_query(case):
         if qepsg == epsg:
             return [(F, q, tol1)]
         F2 = cfg_F2(c, layout, qepsg)
-        tol2 = TOL_PX * math.sqrt(F2[(0, 0)].area / max(1e-300, _rect_area(tile_rects(layout)[(0, 0)])))
+        (ny_, nx_), _ = LAYOUTS[layout]
+        tol2 = TOL_PX * math.sqrt(sum(p_.area for p_ in F2.values()) / (ny_ * nx_))
         q1 = Polygon(project_pts(qpts, qepsg, epsg))
         return [(F, q1, tol1), (F2, q, tol2)]
 
@@ -452,7 +472,7 @@ def gen_pix():
     tier = _TIER[0]
     # the affine and the CRS play no role for pixel-plane boxes: two bases are enough
     for base in ("utm", "rot30"):
-        for layout in q_layouts(tier):
+        for layout in q_layouts(tier) + (("10x7/var", "8x10/zero", "10x7/4x3") if base == "utm" else ()):
             yo, xo = layout_offsets(layout)
             xv = pix_alphabet(xo)
             yv = pix_alphabet(yo)
@@ -578,8 +598,11 @@ def check_deps_structure(r, deps, dtiles, stiles, key, what):
     return norm if ok else None
 
 
-def judge_pairs(r, deps, D, S, pixarea, margin, relation, path, kind, what):
-    """D, S: dict idx -> polygon in one common plane; brute force over all pairs."""
+def judge_pairs(r, deps, D, S, pixarea, margin, relation, path, kind, what, min_width=0.0):
+    """D, S: dict idx -> polygon in one common plane; brute force over all pairs.
+
+    min_width > 0: an overlap thinner than that (no disk of that diameter fits) is a sliver and not required.
+    """
     norm = check_deps_structure(r, deps, D, S, path, what)
     if norm is None:
         return 0, 0
@@ -593,7 +616,8 @@ def judge_pairs(r, deps, D, S, pixarea, margin, relation, path, kind, what):
             b = sb[j]
             if b[0] >= x1 or b[2] <= x0 or b[1] >= y1 or b[3] <= y0:
                 continue
-            if dp.intersection(sp).area > thr:
+            ov = dp.intersection(sp)
+            if ov.area > thr and (min_width <= 0 or not ov.buffer(-min_width / 2).is_empty):
                 nreq += 1
                 if j not in listed:
                     stage = "dst-tile-absent" if i not in norm else "src-tile-unlisted"
@@ -637,6 +661,8 @@ SAME_KINDS = {
     "mirror-y": (1.0, lambda nx, ny: aff_mul(aff_T(0, ny), aff_S(1, -1))),
     "rot30": (1.0, lambda nx, ny: aff_R(30)),
     "rot90": (1.0, lambda nx, ny: aff_R(90)),
+    # both axes mirrored at once = turned by 180 degrees: still a pure scale + translation
+    "rot180": (1.0, lambda nx, ny: aff_mul(aff_T(nx, ny), aff_S(-1, -1))),
 }
 PLACE = ("far-", "touch-", "-3.25", "0", "+2.5", "+3", "touch+", "far+")
 PLACE_THOROUGH = PLACE + ("+2^-11", "+2^-8", "-0.125")
@@ -961,14 +987,19 @@ DRIFT_ORIENT = {
     "wide": ("2048x40000/512x2048", ("2048x40000/512x2048", "2048x40000/1024x1000")),
     "tall": ("40000x2048/2048x512", ("40000x2048/2048x512", "40000x2048/1000x1024")),
 }
-DRIFT_TERMS = (1e-6, 1e-5, 1e-4, 5e-4, 1e-3, 5e-3)
+LAYOUTS["2000x2000/500"] = ((2000, 2000), (500, 500))
+LAYOUTS["2000x2000/var"] = ((2000, 2000), ((512, 256, 512, 720), (720, 512, 256, 512)))
+DRIFT_ORIENT["square"] = ("2000x2000/500", ("2000x2000/500", "2000x2000/var"))
+DRIFT_TERMS = (1e-6, 1e-5, 1e-4, 5e-4, 8.7e-4, 1e-3, 5e-3)  # 8.7e-4 = 0.05 degrees
+DRIFT_TERMS_WINDOW = (0.9e-8, 1.1e-8, 0.9e-10, 1.1e-10)  # both sides of snap_affine / is_affine_st tolerances
 DRIFT_KINDS = ("rotation", "shear-x", "shear-y")
 
 
 def gen_drift():
     tier = _TIER[0]
-    dbases = ("utm",) if tier == "quick" else ("utm", "flipx", "rot30")
-    terms = [sg * t for t in DRIFT_TERMS for sg in (1, -1)]
+    dbases = ("utm",) if tier == "quick" else ("utm", "flipx", "rot30", "geo-tiny")
+    tt = DRIFT_TERMS if tier == "quick" else DRIFT_TERMS + DRIFT_TERMS_WINDOW
+    terms = [sg * t for t in tt for sg in (1, -1)]
     for dbase, orient, si, kind, t, pivot in itertools.product(
         dbases, DRIFT_ORIENT, (0, 1), DRIFT_KINDS, terms, ("centre", "corner")
     ):
@@ -1003,7 +1034,11 @@ def run_drift(case):
             f"(drift {drift:.3g} px), src affine {As}")
     r = R()
     deps = dst.grid_intersect(src)
-    nreq, nedges = judge_pairs(r, deps, D, S, 1.0, 1e-6, "overlap", "same-crs-nearly-aligned", kind, what)
+    # what odc-geo documents as "aligned" (snap_affine: translation 1e-3 px, scale 1e-6, rotation 1e-8) may move
+    # an edge by that much over the raster length: thinner overlaps are slivers
+    w_snap = 2 * (1e-3 + (1e-6 + 1e-8) * max(nx, ny))
+    nreq, nedges = judge_pairs(r, deps, D, S, 1.0, 1e-6, "overlap", "same-crs-nearly-aligned", kind, what,
+                               min_width=w_snap)
     dcls = "<0.5px" if drift < 0.5 else ("<5px" if drift < 5 else ">=5px")
     r.outcome = f"drift:{kind}:{dcls}:edges={'=' if nedges == nreq else '+'}"
     r.counts = {"edges_required": nreq, "edges_listed": nedges}
@@ -1015,8 +1050,9 @@ def run_drift(case):
 # =================================================================================================
 # "tile k has the same shape on both sides" does not mean "covers the same pixels" once chunks are irregular.
 # Menu entries: int = regular tile size (odc.geo.roi.Tiles when both axes are ints), tuple = explicit chunks.
-MENU_Y = (10, (5, 10, 15), (15, 10, 5), (10, 5, 15), (12, 8, 10), 30, 6, (1, 28, 1))  # 30-px axis
-MENU_X = (8, (4, 8, 12), (12, 8, 4), 24, 6, (2, 20, 2))  # 24-px axis
+MENU_Y = (10, (5, 10, 15), (15, 10, 5), (10, 5, 15), (12, 8, 10), 30, 6, (1, 28, 1),
+          (12, 4, 4, 10), (10, 0, 20), (4, 4, 4, 18))  # 30-px axis
+MENU_X = (8, (4, 8, 12), (12, 8, 4), 24, 6, (2, 20, 2), (12, 0, 12), (3, 21))  # 24-px axis
 MENU_SHAPE = (30, 24)
 # relation of the source pixel grid to the destination's: (scale of a source pixel in dst pixels, shift in dst px)
 MENU_REL = {"identical": (1.0, 0.0, 0.0), "shift": (1.0, 3.0, -2.0), "scale2": (2.0, 0.0, 0.0),
